@@ -1,7 +1,7 @@
 """The implementation side of the correspondence: run operations of the real API classes against a scripted
 device (in-process reader/writer, or a fake device on loopback TCP), render what happened canonically, and the
 generators shared by the frame properties (C01 C02 C03 C09 C16)."""
-import asyncio, heapq, binascii, datetime as D, logging, os, random, struct, sys
+import asyncio, heapq, math, binascii, datetime as D, logging, os, random, struct, sys
 from unittest.mock import MagicMock
 import time_machine
 import lib
@@ -143,7 +143,9 @@ class VirtualLoop(asyncio.SelectorEventLoop):
             h = heapq.heappop(self._scheduled); h._scheduled = False; self._timer_cancelled_count -= 1
         if not self._ready and self._scheduled:
             w = self._scheduled[0]._when
-            if w > self._vnow: self._vnow = w
+            # strictly past the timer: BaseEventLoop runs handles with when < time() + clock_resolution, and at large clock values the
+            # resolution is below one unit in the last place
+            if w >= self._vnow: self._vnow = math.nextafter(w, math.inf)
         super()._run_once()
 
 
